@@ -616,10 +616,21 @@ fn gen_contains(r: &mut Rng) -> String {
             _ => ops.push(RawOp::Sf(ORIENTED | (m.f & MERGE))),
         }
     }
+    // sometimes an orientation-preserving `scaled` (all components positive, or exactly two negative: a half-turn composed
+    // with a positive scale), uniform or not: the scaled mesh is still closed and outward oriented
+    if r.below(3) == 0 {
+        let lat = r.bool();
+        let mut sc: Vec<f64> = (0..3).map(|_| if lat { *r.pick(&[0.5, 1.0, 2.0, 3.0]) } else { r.uniform(0.3, 3.0) }).collect();
+        if r.below(4) == 0 { let k = sc[0]; sc = vec![k; 3]; }
+        if r.bool() { let keep = r.below(3) as usize; for k in 0..3 { if k != keep { sc[k] = -sc[k]; } } }
+        let pos = r.below(ops.len() as u64 + 1) as usize;
+        ops.insert(pos, RawOp::Sc(sc));
+    }
+    // the final buffers (real code) only serve to place the query points away from the surface
+    let fm = h3::run_ops(&m, &ops).expect("closed mesh history");
     let (mut lo, mut hi) = (vec![f64::MAX; 3], vec![f64::MIN; 3]);
-    for p in &m.v { for k in 0..3 { lo[k] = lo[k].min(p[k]); hi[k] = hi[k].max(p[k]); } }
-    // reference mesh only used to keep query points away from the surface
-    let refm = TriMesh::with_flags(m.v.iter().map(|c| Point::new(c[0], c[1], c[2])).collect(), m.i.clone(), TriMeshFlags::empty()).unwrap();
+    for p in fm.vertices() { for k in 0..3 { lo[k] = lo[k].min(p[k]); hi[k] = hi[k].max(p[k]); } }
+    let refm = TriMesh::with_flags(fm.vertices().to_vec(), fm.indices().to_vec(), TriMeshFlags::empty()).unwrap();
     let mut pts = vec![];
     while pts.len() < 6 {
         let margin = if r.bool() { 0.0 } else { 1.0 };
